@@ -13,9 +13,8 @@ CONSTANTS WhichLayer, Part, Parts
 
 G == INSTANCE Gen_Terms WITH Layer <- WhichLayer, NShards <- 1, Shard <- 0, done <- FALSE
 
-Inputs == LET c == G!Corpus
-              sq == SetToSeqBy(c)
-          IN  {sq[i] : i \in {i \in 1..Len(sq) : i % Parts = Part}}
+Inputs == IF Parts = 1 THEN G!Corpus
+          ELSE LET sq == SetToSeqBy(G!Corpus) IN {sq[i] : i \in {i \in 1..Len(sq) : i % Parts = Part}}
 
 VARIABLES t, out, pc
 Init == t \in Inputs /\ out = t /\ pc = "in"
